@@ -3,7 +3,8 @@ ENTRY = dict(
     rule="(a) for each of the 11 public/private struct pairs of u_public.go: the declared field lists (reflect), the copy "
          "flows observed by setting one field at a time, 12+n/20 random fills of every field in both directions compared "
          "field by field (every second suite view carries an implemented suite id with otherwise random fields), nil in/nil out; "
-         "re-conversion after a same-shape edit of every leaf of every field (convert, edit, convert again; Raw cleared in between), "
+         "views of the package's real cipher suites with one field (also the func-valued ones) replaced; conversion results must not share state "
+         "with the package (alias check); re-conversion after a same-shape edit of every leaf of every field (convert, edit, convert again; Raw cleared in between), "
          "Marshal -> same-shape edit -> Marshal -> parse on valid views; the three rebuilt slices with nil / empty / 1-4 elements; (b) ClientHello bytes: every "
          "parrot's Hello.Raw from BuildHandshakeState on a connection-less UConn, randomized specs with harness seeds, generated "
          "valid field values, and 27 kinds of wire-level variants (valid: dropped/swapped/unknown extensions, SCSV, no extension "
